@@ -39,6 +39,7 @@ PROPS = {
         "level_note": "Trusted: Lean kernel; propext, Quot.sound, Classical.choice; harness. Partial: JSON / merged / dynblock bodies are covered by the oracle, not by a theorem.",
     },
     "C05": {
+        "disabled": True,
         "lean": ["Props.C05"],
         "gen": [],
         "hx": ["C05", "C01"],
@@ -49,6 +50,7 @@ PROPS = {
         "level_note": "Trusted: Lean kernel; standard axioms; harness. Partial: refinements, sets and the other unsupported cases are outside the model.",
     },
     "C06": {
+        "disabled": True,
         "lean": ["Props.C06"],
         "gen": [],
         "hx": ["C06", "C01"],
@@ -79,6 +81,26 @@ PROPS = {
         "level_text": "Kernel-checked theorems (for every rule table): format changes only SpacesBefore, its output spacing does not depend on the input spacing, token-level idempotence; byte-level idempotence and token preservation under the LexStable hypothesis. The model is tied to hclwrite/format.go by running both on the real token streams of generated, mutated and enumerated sources (exact spacing vectors) with the rule tables dumped from the compiled code; LexStable (the unmodelled scanner) is discharged by exhaustive short-window enumeration and generated configurations through the real Format.",
         "level_note": "Trusted: Lean kernel; axioms propext, Quot.sound; the Go harness (dumper, generators, differ). Not modelled: the Ragel scanner (LexStable is searched, not proved), grapheme segmentation (widths are supplied by the harness).",
     },
+    "C08": {
+        "lean": ["Props.C08"],
+        "gen": [],
+        "hx": ["C08"],
+        "trusted": ["the decoder model (HclModel/Dec/Decode.lean) covers Object, Tuple, Attr, Literal, Block, BlockList, BlockTuple, BlockMap, BlockObject, BlockAttrs, BlockLabel, Default; BlockSet, Expr/Transform/Refine/Validate specs, optional attributes and unknown bodies are covered by the direct oracle only"],
+        "assumptions": ["wf: label counts positive, no dynamic types under BlockMap, DefaultSpec sides of equal implied type", "okSpec excludes the two recorded deviations (BlockList over dynamic element types, multi-label BlockMap)"],
+        "technique": "Lean 4 proof (type conformance of the decoder model by induction over spec trees, with kernel-checked counterexamples for the recorded deviations) + conformance/denotation oracle on the real hcldec",
+        "level_text": "Kernel-checked on the decoder model: for every well-formed spec tree outside the two recorded deviations and every body content (missing, extra, mistyped, duplicated items), a decode that returns yields a value whose type conforms to the implied type (equal wherever the implied type is not dynamic); includes the typing lemma of the conversion model (convert v t = ok v' ⇒ v' conforms to t). The two deviations of the current code are kernel-checked counterexamples replayed on hcldec. The direct oracle decodes generated spec/body pairs of every kind on the real code (panic, implied type, conformance, error presence, exact value).",
+        "level_note": "Trusted: Lean kernel; standard axioms; harness. Partial: see trusted; schema extraction is C04's, expression evaluation C01's.",
+    },
+    "C10": {
+        "lean": ["Props.C10"],
+        "gen": [],
+        "hx": ["C10"],
+        "trusted": ["the loader model (HclModel/Write/Loader.lean) mirrors hclwrite/parser.go function by function; which ranges the native parser records is the business of C14"],
+        "assumptions": ["loading does not panic; no traversal leaves tokens after its last step; attributes end where their expression ends (tight) for exact order"],
+        "technique": "Lean 4 proof (the loader distributes every source token to exactly one node: permutation unconditionally, identity under tightness) + load/save oracle on the real hclwrite",
+        "level_text": "Kernel-checked on the loader model, for arbitrary token lists and arbitrary ranges: whenever loading succeeds, serialising the tree yields a permutation of the source tokens (none lost, none duplicated) and exactly the source sequence when no attribute has tokens between its expression and its end of line; the partition primitive never loses a token. A kernel-checked witness shows the reordering that parseAttribute's straggler handling allows (latent: the native parser ends an attribute's range at its expression). The direct oracle loads and saves generated configurations over every traversal shape and compares tokens, bytes and exposed items with hclsyntax.",
+        "level_note": "Trusted: Lean kernel; standard axioms; harness. Partial: exposure of names/labels/traversals is oracle-only.",
+    },
     "C11": {
         "lean": ["Props.C11"],
         "gen": [],
@@ -88,6 +110,26 @@ PROPS = {
         "technique": "Lean 4 proof (escape/unescape round trip over all Unicode strings) + generate-parse-evaluate oracle",
         "level_text": "Kernel-checked: for every string and every printable-predicate that prints '{', the quoted-literal reader returns exactly the string that escapeQuotedStringLit was given (quotes, backslashes, controls, $/% runs before '{', astral characters); the hypothesis is shown necessary by a witness. Values, numbers, collection keys, traversals and labels are checked on the real code by generate → parse → evaluate → compare.",
         "level_note": "Trusted: Lean kernel; propext, Quot.sound; harness. Partial: only the string-literal layer is proved; UTF-8 and NFC are not modelled.",
+    },
+    "C12": {
+        "lean": ["Props.C12"],
+        "gen": [],
+        "hx": ["C12"],
+        "trusted": ["the pointer model of one body (node.go + ast_body.go) is tied to hclwrite by the WOP correspondence: random edit histories on the real root body and on the model, items compared after every operation", "token-level validity of the serialised file and nested bodies are covered by the direct oracle"],
+        "assumptions": ["block handles are fresh (AppendNewBlock creates a new block each time)"],
+        "technique": "Lean 4 refinement proof (doubly linked child list + item set refines a list/map model, for every edit history) + WOP correspondence + edit-history oracle",
+        "level_text": "Kernel-checked, for every finite history of set / remove / rename attribute, append / remove block, append newline from the empty body: the pointer structure stays well-formed (one duplicate-free list consistent with first/last/before/after, items are attached children, unique attribute names), its structured content equals what the simple list/map model predicts (same items, same order), GetAttribute agrees with the model, and an edit leaves other attributes alone. The direct oracle applies histories (also SetLabels, SetType, raw tokens, traversals, nested and detached bodies, parsed files with comments) to the real API and checks the token frame, the accessors and that the result parses to the model.",
+        "level_note": "Trusted: Lean kernel; standard axioms; harness. Partial: one body, contents opaque; the validity of the serialised text (newlines, single-line blocks) is oracle-only — that is where the recorded findings are.",
+    },
+    "C20": {
+        "lean": ["Props.C20"],
+        "gen": [],
+        "hx": ["C20", "C01"],
+        "trusted": [EVAL_TIE, "the type-expression model is tied to typeexpr by the direct round-trip oracle; the stand-alone traversal parser and the JSON static views are oracle-only"],
+        "assumptions": ["no object type with `for` as first attribute name (recorded finding)"],
+        "technique": "Lean 4 proof (static traversal = evaluation on the evaluator model; TypeString/getType round trip) + correspondence + static-vs-dynamic oracle",
+        "level_text": "Kernel-checked on the evaluator model: an expression that is statically a traversal evaluates to exactly the value (and error presence; identical diagnostics when no null key or no error) that applying the traversal to the scope gives; the static parts of a tuple constructor evaluate to the elements of the whole. For type constraints: parseType (typeString ty) = ty for every type without a leading `for` attribute (witness that the guard is needed). The direct oracle compares AbsTraversalForExpr / TraverseAbs / ParseTraversalAbs / ExprList / ExprMap / ExprCall / TypeString on the real code in both syntaxes.",
+        "level_note": "Trusted: Lean kernel; standard axioms; harness. Partial: ParseTraversalAbs agreement and JSON are oracle-only.",
     },
     "C13": {
         "lean": ["Props.C13"],
@@ -146,4 +188,11 @@ PENDING = {
     "C20": "static-traversal agreement theorem not built yet (direct oracle exists: harness/props/c20)",
 }
 
-NOT_APPLICABLE = [{"property_id": k, "reason": "work in progress, not claimed yet: " + v} for k, v in sorted(PENDING.items()) if k not in PROPS]
+import os as _os
+_LEAN = _os.path.join(_os.path.dirname(_os.path.dirname(_os.path.abspath(__file__))), "lean")
+# a property is claimed only once the Lean module with its theorems exists in the tree
+CLAIMED = {k: v for k, v in PROPS.items() if all(_os.path.exists(_os.path.join(_LEAN, m.replace(".", "/") + ".lean")) for m in v["lean"]) and not v.get("disabled")}
+NOT_APPLICABLE = [{"property_id": k, "reason": "work in progress, not claimed yet: " + v} for k, v in sorted(PENDING.items()) if k not in CLAIMED]
+for k in sorted(PROPS):
+    if k not in CLAIMED and k not in PENDING:
+        NOT_APPLICABLE.append({"property_id": k, "reason": "work in progress, not claimed yet: the theorems of this property are being proved (model, correspondence and direct oracle exist)"})
